@@ -329,7 +329,8 @@ class CHECK(vlib.Check):
             "privileged what-codes without privilege, forged privilege bits and session fields), departures, and as last op a connection cut "
             "after every (all) / around every Message boundary (some) byte of a client's stream; after EVERY op messages, tree with subscriber "
             "tables, subscriptions, limits, privilege bits and liveness are compared with the extracted model; frame / detach-trace / "
-            "as-if-never oracles on the implementation, the same statements on the model's states.  Non-trivial = at least two sessions, "
+            "as-if-never oracles on the implementation, the same statements on the model's states; one more stream (label i) adds "
+            "INSERTORDEREDDATA / REORDERDATA, which the model does not cover, and is judged by the oracles and sanitizers alone.  Non-trivial = at least two sessions, "
             "a subscription or data of another session in place, and then a hostile command, a departure or a cut.")
 
     def gen_cases(self, rng, tier):
@@ -351,6 +352,10 @@ class CHECK(vlib.Check):
         for i in range(3 if quick else 40):
             g = Gen(rng, hostile=0.3, priv_hosts=False, quiet=False, filters=False)
             out.append(("cut-all", "c|" + g.case(rng.choice([3, 5, 7]), rng.choice([2, 3]), cut="all")))
+        # INSERTORDEREDDATA / REORDERDATA / ordered indices: not in the Coq model; the implementation alone, judged by the harness's
+        # frame / detach-trace / as-if-never oracles (which compare indices too) and the sanitizers
+        for c in self.gen_ordered(rng, tier):
+            out.append(("ordered-impl-only", c))
         return out
 
     def gen_ordered(self, rng, tier):
@@ -360,39 +365,7 @@ class CHECK(vlib.Check):
         for i in range(n):
             g = Gen(rng, hostile=0.3, priv_hosts=False, quiet=False, filters=(i % 3 == 0), ordered=True)
             out.append(g.case(rng.choice([6, 10, 14]), rng.choice([2, 3]), cut=("some" if i % 4 == 0 else None)))
-        return ["o|" + c for c in out]
-
-    def extra_stage(self, ctx):
-        """INSERTORDEREDDATA / REORDERDATA are not in the Coq model: this stream runs on the implementation alone and is judged by the
-        harness's own frame / detach-trace / as-if-never oracles (which compare ordered indices too) and by the sanitizers."""
-        import random, time
-        if not ctx.get("impl"):
-            return
-        rng = random.Random(ctx["seed"] * 7919 + 5)
-        cases = self.gen_ordered(rng, ctx["tier"])
-        t0 = time.time()
-        rc, out, err = vlib.run_lines(ctx["impl"], "".join(c + "\n" for c in cases), timeout=1500)
-        nfail = 0
-        seen = set()
-        for l in out:
-            sp = l.split(" ", 2)
-            if len(sp) >= 3 and sp[0].isdigit() and sp[1] == "ORACLE":
-                k = int(sp[0])
-                nfail += 1
-                sig = "ORACLE " + sp[2]
-                key = (sig.split(" op#")[0])
-                if key in seen:
-                    continue
-                seen.add(key)
-                ctx["failures"].append({"kind": "oracle", "signature": sig, "case": cases[k] if k < len(cases) else None,
-                                        "detail": {"oracle": sig, "stream": "ordered (implementation only)"}})
-        done = len({l.split(" ", 1)[0] for l in out if l[:1].isdigit()})
-        if rc != 0 or done < len(cases):
-            ctx["failures"].append({"kind": "crash", "signature": "crash: " + vlib.san_summary(err) + " (ordered stream)",
-                                    "case": cases[min(done, len(cases) - 1)], "detail": {"rc": rc, "stderr": err[-2500:]}})
-        ctx["extra_coverage"] = {"ordered_stream": {"cases": len(cases), "completed": done, "oracle_failures": nfail,
-                                                      "wall_s": round(time.time() - t0, 1),
-                                                      "note": "INSERTORDEREDDATA / REORDERDATA / indices: implementation + oracles only, not modelled"}}
+        return ["i|" + c for c in out]
 
     def nontrivial(self, case):
         ops = case.split("|", 1)[1].split(";")
